@@ -109,6 +109,39 @@ Definition oracle_c14 (code : Z) (ps : list Z) (vs outs : list (list Z)) : Z :=
                      Nat.eqb (length (snd q)) (Z.to_nat (t_size t)) && forallb (digit_ok H) (snd q) &&
                      congr M (limbs_val_pre B (snd q)) (tv (fst q) 0))
                   (combine (v vs 1) outs))
+  | 14005 =>
+      (* HISTORY RULE: whatever the order of set_rotation_direction / set calls, the direction is the one requested last
+         (default Left) and the table (and drift) those of the last set *)
+      let evs := decode_events (length (v vs 0)) (v vs 0) vs in
+      let e := Z.to_nat (p ps 2) in
+      let dir_ok := eq_listZ (nth (S e) outs []) [if last_dir evs true then 0 else 1] in
+      match last_set evs None with
+      | None => ob (dir_ok && eq_listZ (nth e outs []) [0] && forallb (forallb (Z.eqb 0)) (firstn e outs))
+      | Some kf =>
+          let t := {| t_n := p ps 1; t_ext := p ps 2; t_b := p ps 3; t_klut := p ps 4; t_kmsg := fst kf; t_f := snd kf |} in
+          if negb (t_ok t) then (if dir_ok then 2 else 0) else ob (dir_ok && table_ok t 0 (firstn (S e) outs))
+      end
+  | 14021 =>
+      let q0 := bpar ps in
+      let evs := decode_events (length (v vs 3)) (v vs 3) vs in
+      let left := last_dir evs true in
+      match last_set evs None with
+      | None => 2
+      | Some kf =>
+          let q := set_left q0 left in
+          let t := {| t_n := Z.of_nat (q_n q); t_ext := Z.of_nat (q_ext q); t_b := q_b q; t_klut := q_klut q; t_kmsg := fst kf; t_f := snd kf |} in
+          if negb (t_ok t && binary (v vs 2)) then 2 else
+          let l2n := v outs 0 in
+          let k := hd 0 l2n + dot (tl l2n) (v vs 2) in
+          let M := 2 ^ (t_size t * t_b t) in
+          let tv := table_val_pre (t_f t) (t_mult t) (t_domain t) (t_step t) (t_drift t) k in
+          let lw := lwe_limbs q (v vs 1) in
+          (* the mod-switched ciphertext must carry the direction requested last *)
+          ob ((negb (normalized_limbs (q_blwe q) lw) || ms_ok (2 * t_domain t) (q_blwe q) left lw l2n) &&
+              Nat.eqb (length (v outs 1)) (q_n q) &&
+              forallb (fun c : nat * Z => congr M (snd c) (tv (Z.of_nat (fst c) * t_ext t)))
+                      (combine (seq 0 (q_n q)) (v outs 1)))
+      end
   | 14004 =>
       (* the rule speaks about ciphertexts in normal form *)
       if negb (normalized_limbs (p ps 1) vs) then 2 else ob (ms_ok (p ps 0) (p ps 1) (p ps 3 =? 0) vs (v outs 0))
